@@ -700,6 +700,9 @@ class Engine:
                 return True
             if isinstance(o, VOpt):
                 return o.isnone
+            if isinstance(o, VVal) and o.t.sort() == ValS:
+                # an opaque user value (an argument, a result of user code) may well BE None
+                return z3.Function('is_the_None_object', ValS, z3.BoolSort())(o.t)
             return False
         if isinstance(a, VOpt) or isinstance(b, VOpt):
             raise Unsupported('`is` on optional non-None values')
